@@ -14,7 +14,8 @@ What is extracted (every run, from the working tree):
     bytes through heap.BufferWrapper; BufferWrapper keeps (block, size), frees the block in its
     finaliser and views [start, start+size); reduce_ctype/rebuild_ctype pass the wrapper itself;
     Value/Array build on RawValue/RawArray and default to a recursive lock; `with wrapper:` and
-    get_lock() use the wrapper's own lock.
+    get_lock() use the wrapper's own lock; every branch of synchronized() is `Wrapper(obj, lock, ctx)`
+    (emitted as two counts, proved equal); a wrapper pickles as (synchronized, (obj, lock)).
 """
 import ast
 import os
@@ -171,6 +172,25 @@ def gen_sharedmem(repo):
     require('self.acquire = self._lock.acquire' in init_as and 'self.release = self._lock.release' in init_as
             and 'self._lock = lock' in init_as, 'SynchronizedBase.__init__ changed')
 
+    # ---- synchronized(): every branch hands the caller's lock and ctx to the wrapper class
+    syn = find('synchronized')
+    require([a.arg for a in syn.args.args] == ['obj', 'lock', 'ctx'], 'synchronized signature changed')
+    rets = [s for s in ast.walk(syn) if isinstance(s, ast.Return)]
+    require(rets and all(isinstance(r.value, ast.Call) for r in rets), 'synchronized: a return is not a constructor call')
+    n_ret = len(rets)
+    n_pass = sum(1 for r in rets if [ast.unparse(a) for a in r.value.args] == ['obj', 'lock', 'ctx']
+                 and not r.value.keywords)
+    callees = sorted(ast.unparse(r.value.func) for r in rets)
+    require(callees == ['Synchronized', 'SynchronizedArray', 'SynchronizedString', 'scls'],
+            'synchronized: wrapper classes returned are %s' % callees)
+    require('self._lock = lock' in init_as, 'SynchronizedBase.__init__ no longer keeps the given lock')
+    red = [ast.unparse(s) for s in body_no_doc(find('SynchronizedBase.__reduce__'))]
+    require(red == ['assert_spawning(self)', 'return (synchronized, (self._obj, self._lock))'],
+            'SynchronizedBase.__reduce__ changed: %r' % red)
+    for fn in ('Value', 'Array'):
+        r = [ast.unparse(s) for s in ast.walk(find(fn)) if isinstance(s, ast.Return)]
+        require(sorted(r) == ['return obj', 'return synchronized(obj, lock, ctx=ctx)'], '%s returns %r' % (fn, r))
+
     def cl(xs):
         return '[' + '; '.join(xs) + ']'
     return '''(* GENERATED by translate/kernels/sharedmem.py (G_sharedmem) from billiard/sharedctypes.py
@@ -203,7 +223,13 @@ Definition bufferwrapper_views_start_to_start_plus_size : bool := true.
 Definition pickling_passes_the_wrapper_itself : bool := true.
 Definition value_and_array_build_on_raw_and_default_to_rlock : bool := true.
 Definition with_wrapper_and_get_lock_use_the_wrappers_lock : bool := true.
-''' % (cl(rawvalue), cl(arr_n), cl(arr_init), cl(getter), cl(setter), cl(item_get), cl(item_set))
+Definition pickling_a_wrapper_passes_its_object_and_its_lock : bool := true.
+Definition value_and_array_hand_lock_and_ctx_to_synchronized : bool := true.
+(* synchronized(obj, lock, ctx): number of `return Wrapper(...)` branches, and how many of them are
+   exactly `Wrapper(obj, lock, ctx)` *)
+Definition synchronized_branches : nat := %d.
+Definition synchronized_branches_passing_lock_and_ctx : nat := %d.
+''' % (cl(rawvalue), cl(arr_n), cl(arr_init), cl(getter), cl(setter), cl(item_get), cl(item_set), n_ret, n_pass)
 
 
 def _one_assign(tree, name):
